@@ -108,6 +108,21 @@ func cmdGrpc(args []string) {
 			&R{Op: "wrap", Kids: []*R{{Op: op, Kids: []*R{{Op: "stdnew", S: []string{"plain"}}, coded(7, "denied")}}}, S: []string{"ctx"}},
 			&R{Op: "grpc", Kids: []*R{{Op: op, Kids: []*R{coded(5, "nf"), coded(9, "fp")}}}, I: []int64{14}})
 	}
+	// large errors: many stack-bearing layers (an encoding of 15-60 KiB), a very long message, a wide join
+	for _, depth := range []int{20, 40, 80} {
+		r := &R{Op: "new", S: []string{"origin"}}
+		for i := 0; i < depth; i++ {
+			r = &R{Op: "wrap", Kids: []*R{r}, S: []string{fmt.Sprintf("level %d", i)}}
+		}
+		corpus = append(corpus, r, &R{Op: "grpc", Kids: []*R{cloneR(r)}, I: []int64{5}})
+	}
+	{
+		var kids []*R
+		for i := 0; i < 40; i++ {
+			kids = append(kids, &R{Op: "new", S: []string{fmt.Sprintf("branch %d %s", i, strings.Repeat("x", 200))}})
+		}
+		corpus = append(corpus, &R{Op: "join", Kids: kids}, &R{Op: "stdnew", S: []string{strings.Repeat("long message ", 3000)}})
+	}
 	// nested codes: the outermost attached code is the code of the error, whatever the two codes are
 	// (OK, Unknown and application-defined ones included)
 	for _, outer := range []int64{0, 1, 2, 5, 13, 42} {
